@@ -250,18 +250,35 @@ func encCfg(c []cfgEntry) string {
 
 // loadFilterEncoder provisions the real FilterEncoder from JSON, wrapping the real JSON encoder (the filter
 // encoder relies on a streaming encoder: nested objects are marshalled into the SAME wrapped encoder).
-func loadFilterEncoder(cfg []cfgEntry) (zapcore.Encoder, func(), error) {
+func fieldsJSON(cfg []cfgEntry) (map[string]json.RawMessage, error) {
 	fields := map[string]json.RawMessage{}
 	for _, e := range cfg {
 		var m map[string]any
 		if err := json.Unmarshal([]byte(e.fs.moduleJSON), &m); err != nil {
-			return nil, nil, err
+			return nil, err
 		}
 		m["filter"] = e.fs.moduleID
 		b, _ := json.Marshal(m)
 		fields[e.path] = b
 	}
-	raw, _ := json.Marshal(map[string]any{"wrap": map[string]any{"format": "json"}, "fields": fields})
+	return fields, nil
+}
+
+// loadFilterEncoder: cfg over JSON; with inner != nil: cfg over (inner over JSON).
+func loadFilterEncoder(cfg []cfgEntry, inner ...[]cfgEntry) (zapcore.Encoder, func(), error) {
+	fields, err := fieldsJSON(cfg)
+	if err != nil {
+		return nil, nil, err
+	}
+	var wrap any = map[string]any{"format": "json"}
+	if len(inner) == 1 {
+		innerFields, err := fieldsJSON(inner[0])
+		if err != nil {
+			return nil, nil, err
+		}
+		wrap = map[string]any{"format": "filter", "fields": innerFields, "wrap": map[string]any{"format": "json"}}
+	}
+	raw, _ := json.Marshal(map[string]any{"wrap": wrap, "fields": fields})
 	ctx, cancel := caddy.NewContext(caddy.Context{Context: context.Background()})
 	m, err := ctx.LoadModuleByID("caddy.logging.encoders.filter", raw)
 	if err != nil {
@@ -605,3 +622,169 @@ func lastSeg(p string) string {
 }
 
 var _ = caddyhttp.LoggableStringArray(nil)
+
+// ---------------------------------------------------------------- a filter encoder wrapped in a filter encoder
+
+func tableFree(cfg []cfgEntry) bool {
+	for _, e := range cfg {
+		switch e.fs.kind {
+		case "delete", "replace", "hash", "rename":
+		default:
+			return false
+		}
+	}
+	return true
+}
+
+// runFenc2: fenc2 <nwith> <outer> <inner> <tree>
+func runFenc2(f []string) core.Outcome {
+	bad := core.Outcome{Impl: "bad-op"}
+	if len(f) != 5 || f[1] == "" || strings.Trim(f[1], "0123456789") != "" || len(f[1]) > 6 {
+		return bad
+	}
+	nwith, _ := strconv.Atoi(f[1])
+	outer, ok1 := parseCfg(f[2])
+	inner, ok2 := parseCfg(f[3])
+	tree, ok3 := parseTree(f[4])
+	if !ok1 || !ok2 || !ok3 {
+		return bad
+	}
+	if !tableFree(outer) || !tableFree(inner) {
+		return core.Outcome{Impl: "bad-filter"} // never generated: these filters would need oracle tables
+	}
+	var fields []zapcore.Field
+	for _, n := range tree {
+		zf, ok := zapField(n)
+		if !ok {
+			return core.Outcome{Impl: "bad-tag"}
+		}
+		fields = append(fields, zf)
+	}
+	enc, cancel, err := loadFilterEncoder(outer, inner)
+	if err != nil {
+		return core.Outcome{Impl: "err:provision"}
+	}
+	defer cancel()
+	if nwith > len(fields) {
+		nwith = len(fields)
+	}
+	var sink bytes.Buffer
+	logger := zap.New(zapcore.NewCore(enc, zapcore.AddSync(&sink), zapcore.DebugLevel)).With(fields[:nwith]...)
+	logger.Info("m", fields[nwith:]...)
+	dec := json.NewDecoder(bytes.NewReader(sink.Bytes()))
+	dec.UseNumber()
+	var got map[string]any
+	if err := dec.Decode(&got); err != nil {
+		return core.Outcome{Impl: "err:entry-not-json"}
+	}
+	for _, k := range []string{"level", "ts", "logger", "msg"} {
+		delete(got, k)
+	}
+	out, ok := fromMap(got)
+	if !ok {
+		return core.Outcome{Impl: "err:unexpected-field-type"}
+	}
+	o := core.Outcome{Impl: "ok " + encTree(out), Tags: []string{"op:fenc2"}}
+	// oracle: a delete / replace filter of the INNER encoder on the path of a field (no outer filter on that
+	// path or above it, no namespace) hides it
+	outerBy, innerBy := map[string]bool{}, map[string]filterSpec{}
+	for _, e := range outer {
+		outerBy[e.path] = true
+	}
+	for _, e := range inner {
+		innerBy[e.path] = e.fs
+	}
+	dump, _ := json.Marshal(got)
+	trivial := true
+	var walk func(ns []*node, pre string, depth int)
+	walk = func(ns []*node, pre string, depth int) {
+		for _, n := range ns {
+			if n.ns {
+				return // later fields of this level are under a namespace: left to the fenc stream
+			}
+			path := pre + n.key
+			if outerBy[path] {
+				continue
+			}
+			fs, has := innerBy[path]
+			if n.leaf == nil {
+				if !has {
+					walk(n.kids, path+">", depth+1)
+				}
+				continue
+			}
+			if !has || !hides(fs) {
+				continue
+			}
+			for _, s := range n.leaf.strings() {
+				for _, t := range tokensIn(s) {
+					trivial = false
+					if strings.Contains(string(dump), t) && !strings.Contains(fs.value, t) {
+						class := "fenc2-hidden-field-visible"
+						if depth > 0 {
+							class = "fenc-wrapped-encoder-loses-key-path"
+							o.Tags = append(o.Tags, "fenc2:nested-path-lost")
+						}
+						o.Failures = append(o.Failures, core.Failure{Class: class,
+							What: fmt.Sprintf("the %s filter the wrapped (inner) filter encoder has on %q did not run: token %s is in the entry %s", fs.kind, path, t, dump)})
+						return
+					}
+				}
+			}
+		}
+	}
+	walk(tree, "", 0)
+	if trivial {
+		o.Tags = append(o.Tags, "trivial")
+	}
+	return o
+}
+
+func genFenc2Case(r *core.Rand) string {
+	gen := func() fieldVal {
+		if r.Chance(1, 2) {
+			return fieldVal{kind: "s", s: "v-" + newToken(r)}
+		}
+		return fieldVal{kind: "a", a: []string{"v-" + newToken(r), "w-" + newToken(r)}}
+	}
+	tree := genTree(r, 0, gen)
+	var leaves, objs []string
+	allPaths(tree, "", &leaves, &objs)
+	renames := 0
+	mk := func() []cfgEntry {
+		var cfg []cfgEntry
+		seen := map[string]bool{}
+		for i := r.Intn(4); i > 0; i-- {
+			p := "uri"
+			switch x := r.Intn(10); {
+			case x < 6 && len(leaves) > 0:
+				p = r.Pick(leaves)
+			case x < 8 && len(objs) > 0:
+				p = r.Pick(objs)
+			case len(leaves) > 0:
+				p = lastSeg(r.Pick(leaves)) // the bare key: what the inner encoder wrongly matches today
+			}
+			if seen[p] {
+				continue
+			}
+			seen[p] = true
+			var fs filterSpec
+			switch r.Intn(6) {
+			case 0, 1, 2:
+				fs = filterSpec{kind: "delete"}
+			case 3:
+				fs = filterSpec{kind: "replace", value: "R"}
+			case 4:
+				fs = filterSpec{kind: "hash"}
+			default:
+				renames++
+				fs = filterSpec{kind: "rename", value: fmt.Sprintf("rn%d", renames)}
+			}
+			fs, _ = parseFilterSpec(fs.String())
+			cfg = append(cfg, cfgEntry{p, fs})
+		}
+		return cfg
+	}
+	outer, inner := mk(), mk()
+	return fmt.Sprintf("fenc2 %d %s %s %s", r.Intn(len(tree)+1), encCfg(outer), encCfg(inner), encTree(tree))
+}
